@@ -1,3 +1,4 @@
+mod cli;
 mod core;
 mod engines;
 mod execs;
